@@ -68,8 +68,8 @@ def r_fieldmap(ctx):
                     res.fail(p, "field:" + n, "RawParts::clone builds field `%s` from %s instead of the source's `%s`" % (
                         n, ", ".join(".".join(s) for s in sorted(srcs)) or str(v), n), span=ctx.span_of(p))
     # (2) into_raw_parts o from_raw_parts is the identity mapping
-    into = "any_vec::AnyVec::<Traits, M>::into_raw_parts"
-    frm = "any_vec::AnyVec::<Traits, M>::from_raw_parts"
+    into = "any_vec::AnyVec::into_raw_parts"
+    frm = "any_vec::AnyVec::from_raw_parts"
     ti = tf = None
     for tt, I in ctx.arms(into) or []:
         ti = ret_tree(I)
@@ -272,7 +272,7 @@ def r_provenance(ctx):
     if len(ctor_fns) < 6:
         res.coverage_lost("<crate>", "expected >= 6 functions constructing vector state, found %d" % len(ctor_fns))
     # (2) constructors from a type: one consistent T
-    for p, how in (("any_vec::AnyVec::<Traits, M>::new_in", "build"), ("any_vec::AnyVec::<Traits, M>::with_capacity_in", "build_with_size")):
+    for p, how in (("any_vec::AnyVec::new_in", "build"), ("any_vec::AnyVec::with_capacity_in", "build_with_size")):
         for tt, I in ctx.arms(p) or []:
             tr = ret_tree(I) or {}
             res.inst(sample={"constructor": p, "type_id": str(tr.get(("raw", "type_id"))), "mem": str(tr.get(("raw", "mem")))}, func=p)
@@ -301,8 +301,8 @@ def r_provenance(ctx):
             if ok:
                 res.ok()
     # AnyVecRaw::new: destructor of the same T, stride size_of::<T>, count honoured
-    newp = "any_vec_raw::AnyVecRaw::<M>::new"
-    clos = [f for f in fx.fn_list if f["path"].startswith(newp + "::{closure")]
+    newp = "any_vec_raw::AnyVecRaw::new"
+    clos = [f for f in fx.fn_list if f["path"].startswith((ctx.P(newp) or newp) + "::{closure")]
     res.inst(sample={"destructor_closure": [c["path"] for c in clos]}, func=newp)
     if len(clos) != 1:
         res.coverage_lost(newp, "erased destructor closure not found")
@@ -343,7 +343,7 @@ def r_provenance(ctx):
             else:
                 res.ok()
     # (3) copies: clone_empty_in carries type id / destructor over, storage from the requested builder with the source's layout
-    p = "any_vec_raw::AnyVecRaw::<M>::clone_empty_in"
+    p = "any_vec_raw::AnyVecRaw::clone_empty_in"
     for tt, I in ctx.arms(p) or []:
         tr = ret_tree(I) or {}
         res.inst(sample={"copy": p, "tree": {".".join(k): str(v) for k, v in tr.items()}}, func=p)
@@ -361,7 +361,7 @@ def r_provenance(ctx):
             ok = False
         if ok:
             res.ok()
-    for p in ("any_vec::AnyVec::<Traits, M>::clone_empty_in", "any_vec::AnyVec::<Traits, M>::clone_empty", "<any_vec::AnyVec<Traits, M> as core::clone::Clone>::clone"):
+    for p in ("any_vec::AnyVec::clone_empty_in", "any_vec::AnyVec::clone_empty", "<any_vec::AnyVec as core::clone::Clone>::clone"):
         for tt, I in ctx.arms(p, max_depth=0) or []:
             tr = ret_tree(I) or {}
             v = tr.get(("clone_fn",))
@@ -471,26 +471,26 @@ def _reporters(res, ctx):
     def erased(tt):
         return any(tt.values()) if tt else True
 
-    AV = "any_vec::AnyVec::<Traits, M>::"
+    AV = "any_vec::AnyVec::"
     expect(AV + "element_typeid", lambda tt, v: is_field(v, "type_id") or _tree_alias_last(v, "type_id"), "the vector's type_id field")
     expect(AV + "element_layout", lambda tt, v: isinstance(v, tuple) and v[:1] == ("LAYOUT",), "Mem::element_layout of the vector's storage")
     expect(AV + "len", lambda tt, v: is_field(v, "len"), "the len field")
     expect(AV + "capacity", lambda tt, v: isinstance(v, Poly) and any(isinstance(a, tuple) and a[0] == "CAP" for a in v.atoms()) and len(v.m) == 1, "Mem::size")
-    EP = "<element::ElementPointer<'a, AnyVecPtr> as any_value::"
+    EP = "<element::ElementPointer as any_value::"
     expect(EP + "AnyValue>::value_typeid", lambda tt, v: is_field(v, "type_id") or _tree_alias_last(v, "type_id"), "the owning vector's type_id")
     expect(EP + "AnyValueTypeless>::size", lambda tt, v: isinstance(v, Poly) and [a[0] for a in v.atoms()] == ["STRIDE"], "the owning vector's element size")
-    TV = "<ops::temp::TempValue<Op> as any_value::"
+    TV = "<ops::temp::TempValue as any_value::"
     expect(TV + "AnyValue>::value_typeid", lambda tt, v: (is_field(v, "type_id") or _tree_alias_last(v, "type_id")) if erased(tt) else (isinstance(v, tuple) and v[:1] == ("TYPEID",)),
            "type_id of the vector (erased) / TypeId::of::<Element>() (typed)")
     expect(TV + "AnyValueTypeless>::size", lambda tt, v: isinstance(v, Poly) and [a[0] for a in v.atoms()] == (["STRIDE"] if erased(tt) else ["SIZEOF"]),
            "element size of the vector (erased) / size_of::<Element>() (typed)")
-    W = "<any_value::wrapper::AnyValueWrapper<T> as any_value::"
+    W = "<any_value::wrapper::AnyValueWrapper as any_value::"
     expect(W + "AnyValue>::value_typeid", lambda tt, v: v == ("TYPEID", "T"), "TypeId::of::<T>()")
     expect(W + "AnyValueTypeless>::size", lambda tt, v: v == Poly.atom(("SIZEOF", "T")), "size_of::<T>()")
     R = "<any_value::raw::AnyValueRaw as any_value::"
     expect(R + "AnyValue>::value_typeid", lambda tt, v: is_field(v, "typeid") or _tree_alias_last(v, "typeid"), "its typeid field")
     expect(R + "AnyValueTypeless>::size", lambda tt, v: is_field(v, "size"), "its size field")
-    L = "<any_value::lazy_clone::LazyClone<'a, T> as any_value::"
+    L = "<any_value::lazy_clone::LazyClone as any_value::"
     expect(L + "AnyValue>::value_typeid", lambda tt, v: isinstance(v, tuple) and v[:1] == ("VTYPEID",), "value_typeid() of the source")
     expect(L + "AnyValueTypeless>::size", lambda tt, v: isinstance(v, Poly) and [a[0] for a in v.atoms()] == ["VSIZE"], "size() of the source")
     U = "any_vec_ptr::utils::"
@@ -879,7 +879,7 @@ def _field_ptr_writers_aligned(ctx, adt, res):
 def r_iter(ctx):
     res = RuleResult("R-ITER")
     fx = ctx.fx
-    I0 = "<iter::Iter<'a, AnyVecPtr, IterItem> as core::iter::"
+    I0 = "<iter::Iter as core::iter::"
     idx0 = Poly.atom(("init", (("P", 1), ("index",)), 0))
     end0 = Poly.atom(("init", (("P", 1), ("end",)), 0))
 
@@ -972,7 +972,7 @@ def r_iter(ctx):
         else:
             res.fail(p, "len", "len returns %s, expected end-index" % (v,), span=ctx.span_of(p))
     # Clone copies the cursors field to field (independent iterators)
-    p = "<iter::Iter<'a, AnyVecPtr, IterItem> as core::clone::Clone>::clone"
+    p = "<iter::Iter as core::clone::Clone>::clone"
     for tt, I in ctx.arms(p) or []:
         tr = ret_tree(I) or {}
         res.inst(sample={"function": p, "tree": {".".join(k): str(v) for k, v in tr.items()}}, func=p)
